@@ -11,9 +11,9 @@ DERIV_FREE = set(problems.DERIV_FREE_LOCAL + [g for g in problems.GLOBAL if "_GN
 
 def setup(ctx, props, extra_translators=()):
     """lean stage + repo build; returns (bdir, Algs) or (None, None)"""
-    from translate import alglists
-    ctx.lean_stage(props, translators=[alglists.run] + list(extra_translators))
-    bdir = ctx.repo_stage()
+    ctx.bdir = ctx.repo_stage()
+    ctx.lean_stage(props, translators=list(extra_translators))
+    bdir = ctx.bdir
     if not bdir or not getattr(ctx, "alg", None):
         return None, None
     return bdir, problems.Algs(ctx.alg)
